@@ -73,4 +73,5 @@ Definition unopt_tables (o : option dtables) : dtables := match o with Some d =>
 Definition d_tables : dtables := unopt_tables (dy_tables drift_tables).
 Definition r_tables : rtables := dtablesR d_tables.
 (* everything that is decided by computation on the current tables, evaluated once *)
-Definition current_checks : bool := tables_okb drift_tables && steps_okb d_tables && witness_okb d_tables.
+Definition current_checks : bool :=
+  tables_okb drift_tables && steps_okb d_tables && witness_okb d_tables && max_step_okb d_tables.
